@@ -95,6 +95,8 @@ class Dump(object):
                 for a in sorted(d):
                     if a in SKIP:
                         continue
+                    if a == "_annotations" and d[a] is not None and len(d[a]) == 0:
+                        continue    # created lazily on first access: an empty set is the same as none
                     body.append([a, self._v(d[a], depth + 1)])
             slots = getattr(type(obj), "__slots__", None)
             if slots and not isinstance(d, dict):
